@@ -771,24 +771,40 @@ def trace(a, *args, **kwargs):
     return np.trace._implementation(np.asarray(a), *args, **kwargs) * a.units
 
 
+def _quantile_helper(func, a, *args, **kwargs):
+    # signature: func(a, q, axis=None, out=None, ...).  ``out`` must not reach numpy
+    # still carrying units: it receives bare numbers and is labelled afterwards
+    out = kwargs.get("out", args[2] if len(args) > 2 else None)
+    if out is None:
+        return func._implementation(np.asarray(a), *args, **kwargs) * a.units
+    if "out" in kwargs:
+        kwargs["out"] = np.asarray(out)
+    else:
+        args = (*args[:2], np.asarray(out), *args[3:])
+    res = func._implementation(np.asarray(a), *args, **kwargs)
+    if getattr(out, "units", None) is not None:
+        out.units = a.units
+    return _wrap_out_result(res, a.units)
+
+
 @implements(np.percentile)
 def percentile(a, *args, **kwargs):
-    return np.percentile._implementation(np.asarray(a), *args, **kwargs) * a.units
+    return _quantile_helper(np.percentile, a, *args, **kwargs)
 
 
 @implements(np.quantile)
 def quantile(a, *args, **kwargs):
-    return np.quantile._implementation(np.asarray(a), *args, **kwargs) * a.units
+    return _quantile_helper(np.quantile, a, *args, **kwargs)
 
 
 @implements(np.nanpercentile)
 def nanpercentile(a, *args, **kwargs):
-    return np.nanpercentile._implementation(np.asarray(a), *args, **kwargs) * a.units
+    return _quantile_helper(np.nanpercentile, a, *args, **kwargs)
 
 
 @implements(np.nanquantile)
 def nanquantile(a, *args, **kwargs):
-    return np.nanquantile._implementation(np.asarray(a), *args, **kwargs) * a.units
+    return _quantile_helper(np.nanquantile, a, *args, **kwargs)
 
 
 @implements(np.linalg.det)
